@@ -3,7 +3,7 @@
 From Coq.Strings Require Import Byte String.
 From Coq Require Import List NArith.
 Import ListNotations.
-From V Require Import lib.Bytes model.Rpc spec.RpcWire proofs.RpcProof.
+From V Require Import lib.Bytes model.Rpc spec.RpcWire spec.RpcCall proofs.RpcProof.
 
 (* Any sequence of messages written to a stream (every payload non-empty and shorter than 2^31 bytes,
    ANY bytes inside - embedded CRLFCRLF, "Content-Length:" text, multi-byte characters, invalid UTF-8)
@@ -88,14 +88,17 @@ Theorem C18_cut_frame_needs_more : forall (p : bytes) (k : nat), payload_ok p ->
 Proof. exact frame_cut_needs_more. Qed.
 Print Assumptions C18_cut_frame_needs_more.
 
-(* Every finished call holds a response that carries its own id and was read off the wire, or its own
-   cancellation (its context was cancelled, while waiting or before the write), or the error of a Write of
-   the underlying connection that failed (the connection is down); finished calls have pairwise different ids.  Any interleaving of id assignment, registration, writes, wire deliveries
-   (any ids, any order, duplicates, unknown ids), takes, cancellations and clean-ups. *)
+(* Every finished call holds a response that carries its own id and was read off the wire BEFORE THE END OF
+   THE STREAM, or its own cancellation (its context was cancelled, while waiting or before the write), or the
+   error of a Write of the underlying connection that failed (the connection is down); finished calls have
+   pairwise different ids.  Any interleaving of id assignment, registration, writes, wire deliveries (any ids,
+   any order, duplicates, unknown ids), takes, cancellations, clean-ups and the END OF THE STREAM (AEof: the
+   peer hangs up / stream.Read fails, run() returns and closes c.done) at any point - before, between and
+   after the responses, in particular between the read loop's send of a response and the caller's wake-up. *)
 Theorem C18_call_gets_own_response : forall (prog : list (kind * bytes)) (tr : list action) (s : state),
   exec (init prog) tr = Some s ->
   (forall t, is_call (threads s t) = true -> t_pc (threads s t) = PDone ->
-     (exists r, t_ret (threads s t) = Some (Got r) /\ fst r = t_id (threads s t) /\ In (ARead r) tr)
+     (exists r, t_ret (threads s t) = Some (Got r) /\ fst r = t_id (threads s t) /\ In (ARead r) tr /\ In r (reads tr))
      \/ (t_ret (threads s t) = Some Cancelled /\ t_ctx (threads s t) = true)
      \/ (t_ret (threads s t) = Some WriteFailed /\ t_ctx (threads s t) = true)
      \/ (t_ret (threads s t) = Some TransportErr /\ down s = true))
@@ -104,6 +107,38 @@ Theorem C18_call_gets_own_response : forall (prog : list (kind * bytes)) (tr : l
         t_id (threads s t1) = t_id (threads s t2) -> t1 = t2).
 Proof. exact call_gets_own_response. Qed.
 Print Assumptions C18_call_gets_own_response.
+
+(* ... stated against the specification of a call's outcome (spec/RpcCall.v, which does not mention the model),
+   with the facts read off the schedule alone: the responses read up to the end of the stream, whether the
+   call's context was cancelled, whether a connection Write failed, whether the stream ended.  The
+   specification lets a call report the end of the connection only if NO response carrying its id was read
+   before the end; the model never does (Call does not look at c.done), so in particular a call whose
+   response was delivered before the peer hung up returns it. *)
+Theorem C18_calls_meet_spec : forall (prog : list (kind * bytes)) (tr : list action) (s : state),
+  exec (init prog) tr = Some s ->
+  forall t, is_call (threads s t) = true -> t_pc (threads s t) = PDone ->
+    exists r, t_ret (threads s t) = Some r /\
+              call_ok (facts tr t (t_id (threads s t))) (outcome_of r) = true.
+Proof. exact calls_meet_spec. Qed.
+Print Assumptions C18_calls_meet_spec.
+
+(* A call whose context was never cancelled, on a connection whose Writes never failed: once it has returned,
+   it has returned the response carrying its id, read before the end of the stream - wherever the end of the
+   stream falls in the schedule (it never returns anything in place of a delivered response). *)
+Theorem C18_uncancelled_call_returns_response : forall (prog : list (kind * bytes)) (tr : list action) (s : state),
+  exec (init prog) tr = Some s ->
+  forall t, is_call (threads s t) = true -> t_pc (threads s t) = PDone ->
+    ctx_in t tr = false -> wfail_in tr = false ->
+    exists r, t_ret (threads s t) = Some (Got r) /\ fst r = t_id (threads s t) /\ In r (reads tr).
+Proof. exact uncancelled_call_returns_response. Qed.
+Print Assumptions C18_uncancelled_call_returns_response.
+
+(* The end of the stream comes once and nothing is read after it. *)
+Theorem C18_nothing_read_after_end : forall (prog : list (kind * bytes)) (tr1 tr2 : list action) (s : state),
+  exec (init prog) (tr1 ++ AEof :: tr2) = Some s ->
+  closed s = true /\ (forall r, ~ In (ARead r) tr2) /\ ~ In AEof tr2 /\ eof_in tr1 = false.
+Proof. exact nothing_read_after_end. Qed.
+Print Assumptions C18_nothing_read_after_end.
 
 (* When every caller and writer has returned, the pending map is empty, the write mutex is free and a
    connection that has not failed carries complete frames only. *)
@@ -204,4 +239,40 @@ Example C18_ex_abandoned_frame_violates :
   wire_spec [bs "N"] false (frame_header big ++ frame (bs "N")) = false /\
   read_stream (frame_header big ++ frame (bs "N")) = ([], EndTrunc) /\
   wire_spec [bs "N"] false (frame (bs "N")) = true.
+Proof. vm_compute. repeat split; reflexivity. Qed.
+
+(* ---------- the end of the stream (the peer hangs up) ---------- *)
+(* the peer answers call 1 and hangs up at once; the read loop delivers the answer and returns (c.done is
+   closed) BEFORE the caller reaches its select: the caller still takes its response.  Call 2 was never
+   answered: it cannot return (neither ATake nor ACancel is enabled) until its context is cancelled. *)
+Definition ex_hangup_trace : list action :=
+  [ASeq 0; ASeq 1; AReg 0; AReg 1; ALock 0; AHeader 0; ABody 0; ARead (1, 50); ASend; AEof; AUnlock 0;
+   ALock 1; AHeader 1; ABody 1; AUnlock 1; ATake 0; ACleanup 0].
+Example C18_ex_answer_then_hangup :
+  match exec (init [(KCall, bs "A"); (KCall, bs "B")]) ex_hangup_trace with
+  | Some s => Some (t_ret (threads s 0), t_pc (threads s 1), closed s, step s (ATake 1), step s (ACancel 1),
+                    step s (ARead (2, 60)),
+                    match exec s [ACtx 1; ACancel 1; ACleanup 1] with
+                    | Some s' => Some (t_ret (threads s' 1), pending s')
+                    | None => None
+                    end)
+  | None => None
+  end = Some (Some (Got (1, 50)), PWait, true, None, None, None, Some (Some Cancelled, [])).
+Proof. vm_compute. reflexivity. Qed.
+Example C18_ex_hangup_facts :
+  reads ex_hangup_trace = [(1, 50)] /\ eof_in ex_hangup_trace = true /\
+  reads [ARead (1, 5); AEof; ARead (2, 6)] = [(1, 5)].
+Proof. vm_compute. repeat split; reflexivity. Qed.
+(* What the specification excludes and admits at the end of the stream: reporting "connection closed" in place
+   of a response that had been read before the end is a violation; reporting it when nothing carrying the id
+   had been read is not; a response of another id, or one that was never read, is a violation. *)
+Example C18_ex_call_spec :
+  call_ok (mkFacts 1 [(1, 50)] false false true) OClosed = false /\
+  call_ok (mkFacts 1 [(1, 50)] false false true) (OGot 1 50) = true /\
+  call_ok (mkFacts 2 [(1, 50)] false false true) OClosed = true /\
+  call_ok (mkFacts 2 [(1, 50)] false false false) OClosed = false /\
+  call_ok (mkFacts 2 [(1, 50)] false false true) (OGot 1 50) = false /\
+  call_ok (mkFacts 1 [(1, 50)] false false true) (OGot 1 51) = false /\
+  call_ok (mkFacts 1 [(1, 50)] false false true) OCancelled = false /\
+  call_ok (mkFacts 1 [(1, 50)] true false true) OCancelled = true.
 Proof. vm_compute. repeat split; reflexivity. Qed.
